@@ -149,6 +149,7 @@ type State struct {
 	qbinders     []string // binders of the quantifiers being evaluated (spec evaluation)
 	ctxDoneChans map[string]Term
 	freshObjs    map[string]bool
+	locals       []string           // references of non-escaping local allocations (invisible to callees)
 	callResults  map[string][]Value // "<callee>#<site ordinal>" -> results of that call on this path
 }
 
@@ -209,6 +210,7 @@ func (s *State) Clone() *State {
 	}
 	c.heldLocks = append([]string(nil), s.heldLocks...)
 	c.ctxDoneChans = s.ctxDoneChans
+	c.locals = append([]string(nil), s.locals...)
 	c.callResults = make(map[string][]Value, len(s.callResults))
 	for k, v := range s.callResults {
 		c.callResults[k] = v
